@@ -12,6 +12,8 @@
     sel (all|distinct) F W g<k> E×k a<k> AGG×k [hv E] P o<k> ORD×k lim(<n>|-) off(<n>|-)
         F   := t<k> | j (inner|left|right|full|cross) F F (- | on E)
              | d F W p<k> E×k                   derived table (SELECT E×k FROM F [WHERE …]) AS r; its columns are c0 … c<k-1>
+             | cte F W p<k> E×k | ctes<j> F W p<k> E×k     the same, written WITH w AS (SELECT …) … FROM w AS r; ctes<j>: under the
+                                                name of table t<j> (which the statement does not read)
         W   := - | w E
         AGG := cnt* | cnt E | sum E | avg E | min E | max E | cntd E | sumd E | avgd E | mind E | maxd E   (…d = DISTINCT)
         hv E: HAVING (optional word)
@@ -21,6 +23,9 @@
                The SQL text shows the key expression / the aggregate call in their place.
         ORD := a<pos> | d<pos>                  ascending / descending on output column <pos>
     ins t<k> r<n> E×(n·columns)
+    insx t<k> (nolist | l<m> c<i>×m) r<n> v<w> E×(n·w)     INSERT INTO t [(c<i>, …)] VALUES n rows of w values each; unlisted
+                                                            columns are NULL; a list with a duplicate or unknown column, or
+                                                            w ≠ m (w ≠ columns without a list), is a bind error
     upd t<k> s<m> (c<col> E)×m W
     del t<k> W
   E := n | i<dec> | b0 | b1 | t<hex> | c<k>                      literal / column k of the (joined) input row
@@ -38,7 +43,8 @@
           | "Rlist:" ROWS     LIMIT/OFFSET present: rows in answer order
           | "A"<n>            rows affected
           | "E"<class>        parse|bind|type|constraint|overflow|divzero|panic|eval|other
-          | "-"               not compared: a DML statement before this one failed (what it leaves behind is C03)
+          | "-"               not compared: a DML statement before this one failed while executing (what it leaves behind
+                              is C03); a statement rejected by the parser or binder (Eparse, Ebind) changes nothing
   ROWS as in DB; a double that is not integral is printed `f<bits>`.
 -/
 import AxVerif.Model.Bytes
@@ -336,7 +342,7 @@ def pFrom : Nat → P From
         | some k => (pFrom fuel ws).bind fun (l, r) => (pFrom fuel r).bind fun (rr, r) =>
             (pOn (fuel + 1) r).map fun (on, r) => (.join k l rr on, r)
       | [] => none
-    else if w == "d" then
+    else if w == "d" || w == "cte" || (numAfter "ctes" w).isSome then   -- a CTE is its derived table
       (pFrom fuel ws).bind fun (f, r) => (pWhere (fuel + 1) r).bind fun (wh, r) =>
         match r with
         | p :: r => (numAfter "p" p).bind fun np => (pExprs (fuel + 1) np r).map fun (es, r) => (.derived f wh es, r)
@@ -436,6 +442,37 @@ def pStmt (db : Db) (ws : List String) : Option Stmt :=
       | some (es, []) => some (.insert t (chunks ncols n es))
       | _ => none
     | _, _ => none
+  | "insx" :: t :: l :: r =>
+    -- insx t<k> (nolist | l<m> c<i>×m) r<n> v<w> E×(n·w): INSERT with a column list and rows of w values; an
+    -- ill-formed statement (list or row width) becomes an INSERT of a row of the wrong arity: a bind error
+    match numAfter "t" t with
+    | none => none
+    | some t =>
+      let ncols := (db.getD t default).tys.length
+      let colsRest : Option (Option (List Nat) × List String) :=
+        if l == "nolist" then some (none, r)
+        else match numAfter "l" l with
+          | none => none
+          | some m => match allSome ((r.take m).map (numAfter "c")) with
+            | some cs => if cs.length == m then some (some cs, r.drop m) else none
+            | none => none
+      match colsRest with
+      | some (cols, n :: v :: r) =>
+        match numAfter "r" n, numAfter "v" v with
+        | some n, some w =>
+          if w == 0 then none else
+          match pExprs fuel (n * w) r with
+          | some (es, []) =>
+            let rows := chunks w n es
+            let full := match cols with
+              | none => some rows
+              | some cs => allSome (rows.map (expandCols ncols cs))
+            (match full with
+             | some rs => some (.insert t rs)
+             | none => some (.insert t [List.replicate (ncols + 1) (.lit .null)]))
+          | _ => none
+        | _, _ => none
+      | _ => none
   | "upd" :: t :: s :: r =>
     match numAfter "t" t, numAfter "s" s with
     | some t, some m =>
@@ -524,7 +561,9 @@ def isDml : Stmt → Bool
 def cutAfterFailedDml : List (Bool × String) → List String
   | [] => []
   | (dml, o) :: rest =>
-    if dml && o.startsWith "E" then o :: rest.map (fun _ => "-") else o :: cutAfterFailedDml rest
+    -- (a statement the parser or the binder rejects was never executed: the comparison goes on)
+    if dml && o.startsWith "E" && o != "Ebind" && o != "Eparse" then o :: rest.map (fun _ => "-")
+    else o :: cutAfterFailedDml rest
 
 /-- the engine places NULL as the largest value (ASC: last, DESC: first) -/
 def nullsFirstOfEngine : Bool := false
